@@ -182,7 +182,7 @@ Section WithExec.
     {| h_height := g_initial g; h_time := g_time g; h_chain := g_chain g; h_last := None;
        h_data := empty_commitment; h_app := g_initroot g; h_proposer := g_proposer g |}.
   (* manager.go:226-235 with signer = nil: unsigned, no public key, signer address = the genesis
-     proposer address (since c84fe2d a signer address without a public key survives
+     proposer address (since fc1d21b a signer address without a public key survives
      SignedHeader.ToProto/FromProto, types/serialization.go, so the store returns it as written) *)
   Definition genesis_block (g : config) : block :=
     ({| sh_hdr := genesis_header g; sh_sig := SigEmpty; sh_signer := {| sg_pub := None; sg_addr := g_proposer g |} |},
